@@ -221,6 +221,20 @@ theorem completion_wakes_only_waiters (progs : List (List Op)) (ties : List Nat)
     ((run fuel (initSt progs ties)).k.finish j).actor a = (run fuel (initSt progs ties)).k.actor a :=
   finish_other _ j a (run_ri fuel _ (initSt_ri progs ties)).reg hwd hj
 
+/-- **the completion of the awaited activity does wake the waiter** (run level): in every reachable state, when
+`finish()` of activity i reaches the simcall of a blocked, non-dying actor a at the front of `simcalls_`, a is
+answered — scheduled in actors_to_run_ at this very clock, no longer in a simcall — and is then registered nowhere,
+with no timeout timer.  (For a sleep: `handle_ended_actions` calls `finish()` right after `update_actions_state`
+popped the action, at the clock of `action_exact_window`.) -/
+theorem completion_wakes_waiter (progs : List (List Op)) (ties : List Nat) (fuel : Nat) (i a : Nat) (rest : List Nat)
+    (hs : ((run fuel (initSt progs ties)).k.impl i).simcalls = a :: rest)
+    (hb : ((run fuel (initSt progs ties)).k.actor a).blocked = true)
+    (hwd : ((run fuel (initSt progs ties)).k.actor a).wannadie = false) :
+    let k := (run fuel (initSt progs ties)).k
+    a ∈ (k.finishOne i a).toRun ∧ ((k.finishOne i a).actor a).blocked = false ∧
+    ((k.finishOne i a).actor a).waiting = [] ∧ ((k.finishOne i a).actor a).tcb = none :=
+  finishOne_wakes _ i a rest (run_ri fuel _ (initSt_ri progs ties)).reg hs hb hwd
+
 theorem timeout_of_other_actor_is_inert (k : K) (t : Timer) (b a : Nat) (hcb : cbActor t.cb = some b) (h : a ≠ b) :
     (k.fire t).actor a = k.actor a := fire_timeout_other k t b a hcb h
 
@@ -261,6 +275,11 @@ example : ((run 0 (initSt [[.sleep 1]] [])).k.actor 0).wannadie = false ∧
   simp [run, initSt, K.actor]
 
 example : cbActor (Cb.wto 1 0) = some 1 ∧ (0 : Nat) ≠ 1 := by simp [cbActor]
+
+/-- a state satisfying the invariant with a registered, blocked, non-dying waiter (hypotheses of
+`completion_wakes_waiter` at the kernel level: `finishOne_wakes`) -/
+example : RegInv kNew ∧ (kNew.impl 0).simcalls = [0] ∧ (kNew.actor 0).blocked = true ∧
+    (kNew.actor 0).wannadie = false := ⟨kNew_reg, kNew_shape.1, kNew_shape.2.1, kNew_shape.2.2.1⟩
 
 /-- the hypothesis of `no_stale_registration` holds for the actors of an initial state -/
 example : ((run 0 (initSt [[.sleep 1]] [])).k.actor 0).wannadie = false := by
